@@ -1,6 +1,932 @@
-//! C17: harness commands for property C17 (stub).
+//! C17: AAT `morx` — generated fonts for the model correspondence, implementation-level oracles
+//! on restricted fonts, generic predicates on the corpus morx fonts.  Public API only.
+//!
+//!   rbv c17 gen     --seed S --n N [--stream wf|mal] [--texts T] [--first I]   fonts + shaped cases
+//!   rbv c17 dump    --seed S --stream wf|mal --font I                         FontSpec Debug + base64
+//!   rbv c17 oracle  --seed S --n N                                            oracles (i)-(iv)
+//!   rbv c17 corpus  --seed S --per-font K                                     generic predicates
+//!   rbv c17 cases                                (stdin: `<font path>\t<request>` lines)
+//!   rbv c17 bytes   --req "<request>"            (stdin: base64 font)          shape one request
+use crate::fontgen::aat::{lookup_value, LookupRole};
+use crate::fontgen::coq::ToCoq;
+use crate::fontgen::*;
+use crate::shp::*;
+use crate::util::*;
+use rustybuzz::Direction;
+use std::io::Read;
 
-pub fn run(_args: &[String]) {
-    eprintln!("c17: not implemented");
-    std::process::exit(2);
+pub fn run(args: &[String]) {
+    quiet_panics();
+    match args.get(0).map(|s| s.as_str()) {
+        Some("gen") => gen(args),
+        Some("dump") => dump(args),
+        Some("oracle") => oracle(args),
+        Some("corpus") => corpus(args),
+        Some("cases") => cases(),
+        Some("bytes") => bytes(args),
+        _ => {
+            eprintln!("c17 gen|dump|oracle|corpus|cases|bytes");
+            std::process::exit(2)
+        }
+    }
+}
+
+// ---------------------------------------------------------------------------------------------
+// base64
+
+const B64: &[u8; 64] = b"ABCDEFGHIJKLMNOPQRSTUVWXYZabcdefghijklmnopqrstuvwxyz0123456789+/";
+
+pub fn b64_encode(data: &[u8]) -> String {
+    let mut s = String::with_capacity(data.len() * 4 / 3 + 4);
+    for ch in data.chunks(3) {
+        let b = [ch[0], *ch.get(1).unwrap_or(&0), *ch.get(2).unwrap_or(&0)];
+        let v = ((b[0] as u32) << 16) | ((b[1] as u32) << 8) | b[2] as u32;
+        s.push(B64[(v >> 18) as usize & 63] as char);
+        s.push(B64[(v >> 12) as usize & 63] as char);
+        s.push(if ch.len() > 1 { B64[(v >> 6) as usize & 63] as char } else { '=' });
+        s.push(if ch.len() > 2 { B64[v as usize & 63] as char } else { '=' });
+    }
+    s
+}
+
+pub fn b64_decode(s: &str) -> Vec<u8> {
+    let mut out = Vec::new();
+    let mut acc = 0u32;
+    let mut bits = 0;
+    for c in s.bytes() {
+        let v = match c {
+            b'A'..=b'Z' => c - b'A',
+            b'a'..=b'z' => c - b'a' + 26,
+            b'0'..=b'9' => c - b'0' + 52,
+            b'+' => 62,
+            b'/' => 63,
+            _ => continue,
+        };
+        acc = (acc << 6) | v as u32;
+        bits += 6;
+        if bits >= 8 {
+            bits -= 8;
+            out.push((acc >> bits) as u8);
+        }
+    }
+    out
+}
+
+// ---------------------------------------------------------------------------------------------
+// generator
+
+#[derive(Clone, Copy, PartialEq)]
+enum Stream {
+    Wf,
+    Mal,
+}
+
+struct Gen {
+    r: Rng,
+    ng: u16,
+    mal: bool,
+}
+
+impl Gen {
+    fn glyph(&mut self) -> u16 {
+        1 + self.r.below(self.ng as u64 - 1) as u16
+    }
+    /// out-of-range value with small probability in the malformed stream
+    fn idx(&mut self, n: usize) -> u16 {
+        if self.mal && self.r.chance(1, 6) {
+            match self.r.below(4) {
+                0 => n as u16,
+                1 => (n + self.r.below(40) as usize) as u16,
+                2 => 0xFFFE,
+                _ => self.r.below(65536) as u16,
+            }
+        } else {
+            self.r.below(n.max(1) as u64) as u16
+        }
+    }
+    fn format(&mut self) -> u8 {
+        *self.r.pick(&[0u8, 2, 6, 8])
+    }
+    /// sorted random non-empty subset of 1..ng
+    fn subset(&mut self, p_num: u64, p_den: u64) -> Vec<u16> {
+        let mut v: Vec<u16> = (1..self.ng).filter(|_| self.r.chance(p_num, p_den)).collect();
+        if v.is_empty() {
+            v.push(self.glyph());
+        }
+        v
+    }
+    fn class_lookup(&mut self, n_classes: u32) -> AatLookup {
+        let gs = self.subset(2, 3);
+        let mut map = Vec::new();
+        for g in gs {
+            let c = match self.r.below(12) {
+                0 => self.r.below(4) as u16,                  // predefined classes
+                1 => n_classes as u16 + self.r.below(3) as u16, // beyond the table: class 1
+                _ => 4 + self.r.below(n_classes as u64 - 4) as u16,
+            };
+            map.push((g, c));
+        }
+        let fill = if self.r.chance(1, 4) { Some(self.r.below(n_classes as u64 + 1) as u16) } else { None };
+        AatLookup { format: self.format(), map, fill }
+    }
+    fn glyph_lookup(&mut self) -> AatLookup {
+        let gs = self.subset(1, 3);
+        let mut map = Vec::new();
+        for g in gs {
+            let v = match self.r.below(16) {
+                0 => 0xFFFF, // the deleted glyph
+                1 => 0,
+                _ => self.glyph(),
+            };
+            map.push((g, v));
+        }
+        let fill = if self.r.chance(1, 4) { Some(self.glyph()) } else { None };
+        AatLookup { format: self.format(), map, fill }
+    }
+    fn states(&mut self, n_states: usize, n_classes: u32, n_entries: usize) -> Vec<Vec<u16>> {
+        (0..n_states)
+            .map(|_| {
+                (0..n_classes)
+                    .map(|c| {
+                        // end-of-text / out-of-bounds columns mostly go to entry 0 (a no-op entry)
+                        if c < 4 && self.r.chance(2, 3) {
+                            0
+                        } else {
+                            self.idx(n_entries)
+                        }
+                    })
+                    .collect()
+            })
+            .collect()
+    }
+    fn dont_advance(&mut self) -> u16 {
+        if self.r.chance(1, 8) { 0x4000 } else { 0 }
+    }
+
+    fn rearrangement(&mut self) -> MorxKind {
+        let n_classes = 4 + self.r.range(1, 4) as u32;
+        let n_states = self.r.range(2, 6) as usize;
+        let n_entries = self.r.range(2, 8) as usize;
+        let mut entries = vec![RearrEntry { new_state: 0, flags: 0 }];
+        for _ in 1..n_entries {
+            let mut flags = self.dont_advance();
+            if self.r.chance(1, 3) {
+                flags |= 0x8000;
+            }
+            if self.r.chance(1, 3) {
+                flags |= 0x2000;
+            }
+            if self.r.chance(1, 2) {
+                flags |= self.r.below(16) as u16;
+            }
+            entries.push(RearrEntry { new_state: self.idx(n_states), flags });
+        }
+        MorxKind::Rearrangement(StateTable { n_classes, class_lookup: self.class_lookup(n_classes), states: self.states(n_states, n_classes, n_entries), entries })
+    }
+
+    fn contextual(&mut self) -> MorxKind {
+        let n_classes = 4 + self.r.range(1, 4) as u32;
+        let n_states = self.r.range(2, 6) as usize;
+        let n_entries = self.r.range(2, 8) as usize;
+        let n_subs = self.r.range(1, 3) as usize;
+        let substitutions: Vec<AatLookup> = (0..n_subs).map(|_| self.glyph_lookup()).collect();
+        let mut entries = vec![CtxEntry { new_state: 0, flags: 0, mark_index: 0xFFFF, current_index: 0xFFFF }];
+        for _ in 1..n_entries {
+            let mut flags = self.dont_advance();
+            if self.r.chance(1, 3) {
+                flags |= 0x8000;
+            }
+            let mark_index = if self.r.chance(1, 2) { 0xFFFF } else { self.idx(n_subs) };
+            let current_index = if self.r.chance(1, 2) { 0xFFFF } else { self.idx(n_subs) };
+            entries.push(CtxEntry { new_state: self.idx(n_states), flags, mark_index, current_index });
+        }
+        MorxKind::Contextual {
+            table: StateTable { n_classes, class_lookup: self.class_lookup(n_classes), states: self.states(n_states, n_classes, n_entries), entries },
+            substitutions,
+        }
+    }
+
+    fn ligature(&mut self) -> MorxKind {
+        let n_classes = 4 + self.r.range(1, 4) as u32;
+        let n_states = self.r.range(2, 6) as usize;
+        let n_entries = self.r.range(2, 8) as usize;
+        let n_actions = self.r.range(1, 6) as usize;
+        let mut lig_actions = Vec::new();
+        for i in 0..n_actions {
+            let offset: i32 = if self.mal && self.r.chance(1, 5) {
+                *self.r.pick(&[-0x2000_0000i32, 0x1FFF_FFFF, -70000, 70000, -(self.ng as i32), 300])
+            } else {
+                self.r.below(7) as i32 - 3
+            };
+            let store = self.r.chance(1, 3);
+            let last = self.r.chance(1, 3) || (i + 1 == n_actions && !self.mal);
+            lig_actions.push(lig_action(offset, store, last));
+        }
+        // component table long enough for glyph + offset, glyph < ng, offset <= 3
+        let n_comp = if self.mal && self.r.chance(1, 3) { self.r.range(1, self.ng as u64) as usize } else { self.ng as usize + 3 };
+        let components: Vec<u16> = (0..n_comp)
+            .map(|_| if self.mal && self.r.chance(1, 8) { self.r.below(65536) as u16 } else { self.r.below(3) as u16 })
+            .collect();
+        // ligature table long enough for the largest sum of components (2 per action)
+        let n_lig = if self.mal && self.r.chance(1, 3) { self.r.range(1, 6) as usize } else { 2 * n_actions + 1 };
+        let ligatures: Vec<u16> = (0..n_lig).map(|_| if self.r.chance(1, 20) { 0xFFFF } else { self.glyph() }).collect();
+        let mut entries = vec![LigEntry { new_state: 0, flags: 0, lig_action_index: 0 }];
+        for _ in 1..n_entries {
+            let mut flags = self.dont_advance();
+            if self.r.chance(1, 2) {
+                flags |= 0x8000;
+            }
+            if self.r.chance(1, 3) {
+                flags |= 0x2000;
+            }
+            entries.push(LigEntry { new_state: self.idx(n_states), flags, lig_action_index: self.idx(n_actions) });
+        }
+        MorxKind::Ligature {
+            table: StateTable { n_classes, class_lookup: self.class_lookup(n_classes), states: self.states(n_states, n_classes, n_entries), entries },
+            lig_actions,
+            components,
+            ligatures,
+        }
+    }
+
+    fn insertion(&mut self) -> MorxKind {
+        let n_classes = 4 + self.r.range(1, 4) as u32;
+        let n_states = self.r.range(2, 6) as usize;
+        let n_entries = self.r.range(2, 8) as usize;
+        let n_glyphs = self.r.range(4, 10) as usize;
+        let glyphs: Vec<u16> = (0..n_glyphs).map(|_| self.glyph()).collect();
+        let mut entries = vec![InsEntry { new_state: 0, flags: 0, current_insert_index: 0xFFFF, marked_insert_index: 0xFFFF }];
+        for _ in 1..n_entries {
+            let mut flags = self.dont_advance();
+            if self.r.chance(1, 3) {
+                flags |= 0x8000;
+            }
+            flags |= (self.r.below(4) as u16) << 10; // insert-before bits
+            flags |= (self.r.below(4) as u16) << 12; // kashida-like bits (ignored)
+            let max_count = if self.mal && self.r.chance(1, 4) { 31 } else { 3 };
+            let cc = self.r.below(max_count + 1) as u16;
+            let mc = self.r.below(max_count + 1) as u16;
+            flags |= cc << 5;
+            flags |= mc;
+            let current_insert_index = if self.r.chance(1, 2) { 0xFFFF } else { self.idx(n_glyphs - cc.min(3) as usize) };
+            let marked_insert_index = if self.r.chance(1, 2) { 0xFFFF } else { self.idx(n_glyphs - mc.min(3) as usize) };
+            entries.push(InsEntry { new_state: self.idx(n_states), flags, current_insert_index, marked_insert_index });
+        }
+        MorxKind::Insertion {
+            table: StateTable { n_classes, class_lookup: self.class_lookup(n_classes), states: self.states(n_states, n_classes, n_entries), entries },
+            glyphs,
+        }
+    }
+
+    fn coverage(&mut self) -> u32 {
+        let mut c = 0u32;
+        if self.r.chance(1, 6) {
+            c |= morx_coverage::VERTICAL;
+        }
+        if self.r.chance(1, 3) {
+            c |= morx_coverage::BACKWARDS;
+        }
+        if self.r.chance(1, 4) {
+            c |= morx_coverage::ALL_DIRECTIONS;
+        }
+        if self.r.chance(1, 3) {
+            c |= morx_coverage::LOGICAL;
+        }
+        // reserved bits of the coverage word must not matter
+        if self.r.chance(1, 8) {
+            c |= 0x0100_0000 << self.r.below(4);
+        }
+        c
+    }
+
+    fn flags(&mut self) -> u32 {
+        match self.r.below(8) {
+            0 => 0,
+            1 => 0xFFFF_FFFF,
+            2 => 0x8000_0000,
+            _ => self.r.below(8) as u32,
+        }
+    }
+
+    fn subtable(&mut self) -> MorxSubtable {
+        let kind = match self.r.below(9) {
+            0 => MorxKind::NonContextual(self.glyph_lookup()),
+            1 | 2 => self.rearrangement(),
+            3 | 4 => self.contextual(),
+            5 | 6 => self.ligature(),
+            _ => self.insertion(),
+        };
+        let sub_feature_flags = if self.r.chance(1, 2) { 0xFFFF_FFFF } else { self.flags() };
+        MorxSubtable { coverage: self.coverage(), sub_feature_flags, kind }
+    }
+
+    fn font(&mut self) -> FontSpec {
+        let mut s = FontSpec::basic(self.ng);
+        let n_chains = self.r.range(1, 3) as usize;
+        let mut chains = Vec::new();
+        for _ in 0..n_chains {
+            let n_sub = self.r.range(1, 4) as usize;
+            let n_feat = self.r.below(3) as usize;
+            let features = (0..n_feat)
+                .map(|_| MorxFeature {
+                    feature_type: *self.r.pick(&[1u16, 3, 37, 17]),
+                    feature_setting: self.r.below(4) as u16,
+                    enable_flags: self.flags(),
+                    disable_flags: !self.flags(),
+                })
+                .collect();
+            let default_flags = if self.r.chance(2, 3) { 1 | self.flags() } else { self.flags() };
+            chains.push(MorxChain { default_flags, features, subtables: (0..n_sub).map(|_| self.subtable()).collect() });
+        }
+        s.morx = Some(Morx { version: if self.r.chance(1, 3) { 3 } else { 2 }, chains });
+        s
+    }
+}
+
+fn font_rng(seed: u64, stream: Stream, i: u64) -> Rng {
+    Rng::new(seed.wrapping_mul(0x9E37_79B9).wrapping_add(i.wrapping_mul(0x1000_0001)).wrapping_add(if stream == Stream::Mal { 0x5555_0000 } else { 0 }))
+}
+
+fn gen_font(seed: u64, stream: Stream, i: u64) -> (FontSpec, Rng) {
+    let mut r = font_rng(seed, stream, i);
+    let ng = r.range(6, 25) as u16;
+    let mut g = Gen { r, ng, mal: stream == Stream::Mal };
+    let f = g.font();
+    (f, g.r)
+}
+
+fn gen_req(r: &mut Rng, ng: u16) -> Req {
+    let len = match r.below(10) {
+        0 => 0,
+        1 => 1,
+        2 => r.range(13, 40) as usize,
+        _ => r.range(2, 12) as usize,
+    };
+    // a few glyphs dominate so that multi-glyph patterns recur
+    let hot: Vec<u16> = (0..4).map(|_| 1 + r.below(ng as u64 - 1) as u16).collect();
+    let mut cps = Vec::new();
+    for _ in 0..len {
+        let g = if r.chance(1, 2) { *r.pick(&hot) } else { 1 + r.below(ng as u64 - 1) as u16 };
+        // an unmapped private-use character now and then (glyph 0)
+        let cp = if r.chance(1, 40) { pua(ng as u32 + 7) } else { pua(g as u32 - 1) };
+        cps.push(cp);
+    }
+    let mode = r.below(16);
+    let mut cl = 0u32;
+    let text: Vec<(u32, u32)> = cps
+        .iter()
+        .enumerate()
+        .map(|(i, c)| {
+            let k = match mode {
+                0 | 1 => {
+                    // non-decreasing with repeats and gaps
+                    cl += r.below(3) as u32;
+                    cl
+                }
+                2 => r.below(6) as u32, // arbitrary
+                _ => i as u32,
+            };
+            (*c, k)
+        })
+        .collect();
+    let dir = match r.below(10) {
+        0 => Direction::TopToBottom,
+        1 => Direction::BottomToTop,
+        2..=5 => Direction::RightToLeft,
+        _ => Direction::LeftToRight,
+    };
+    let features = if r.chance(1, 10) { vec![r.pick(&["liga", "smcp", "-liga", "dlig=1", "kern=0"]).to_string()] } else { vec![] };
+    Req { text, dir: Some(dir), level: r.below(3) as u8, features, ..Req::default() }
+}
+
+fn fmt_out(gs: &[G]) -> String {
+    let v: Vec<String> = gs.iter().map(|g| format!("{}={}", g.gid, g.cluster)).collect();
+    v.join(",")
+}
+
+fn shape_bytes(bytes: &[u8], req: &Req) -> Result<Vec<G>, String> {
+    let b = bytes.to_vec();
+    let r = req.clone();
+    catch(move || match rustybuzz::Face::from_slice(&b, 0) {
+        Some(face) => Ok(shape_req(&face, &r)),
+        None => Err("noface".to_string()),
+    })
+    .and_then(|x| x)
+}
+
+/// generic predicates of the property on one result: output length bound, clusters from the input
+fn generic_violation(req: &Req, out: &[G]) -> Option<String> {
+    let n = req.text.len();
+    let bound = (64 * n).max(16384);
+    if out.len() > bound {
+        return Some(format!("length {} exceeds max(64n,16384)={}", out.len(), bound));
+    }
+    for g in out {
+        if !req.text.iter().any(|(_, k)| *k == g.cluster) {
+            return Some(format!("cluster {} is not a cluster of the input", g.cluster));
+        }
+    }
+    None
+}
+
+fn stream_of(args: &[String]) -> Stream {
+    match arg_str(args, "--stream") {
+        Some("mal") => Stream::Mal,
+        _ => Stream::Wf,
+    }
+}
+
+fn gen(args: &[String]) {
+    let seed = arg_u64(args, "--seed", 1);
+    let n = arg_u64(args, "--n", 10);
+    let first = arg_u64(args, "--first", 0);
+    let texts = arg_u64(args, "--texts", 16);
+    let stream = stream_of(args);
+    let mut shapes = 0u64;
+    let mut bad = 0u64;
+    for i in first..first + n {
+        let (spec, mut r) = gen_font(seed, stream, i);
+        let problems = check(&spec);
+        if !problems.is_empty() {
+            println!("genbug {} {}", i, problems.join("; "));
+            continue;
+        }
+        let bytes = build(&spec);
+        if stream == Stream::Wf {
+            println!("font {} {}", i, spec.coq());
+        }
+        for j in 0..texts {
+            let req = gen_req(&mut r, spec.num_glyphs);
+            let res = shape_bytes(&bytes, &req);
+            shapes += 1;
+            match &res {
+                Ok(out) => {
+                    if let Some(why) = generic_violation(&req, out) {
+                        bad += 1;
+                        println!("generic-fail {} {} {} :: {} :: {}", i, j, why, fmt_req(&req), fmt_out(out));
+                    }
+                    if stream == Stream::Wf {
+                        println!("case {} {} {} -> ok {}", i, j, fmt_req(&req), fmt_out(out));
+                    }
+                }
+                Err(c) => {
+                    bad += 1;
+                    println!("generic-fail {} {} panic:{} :: {} :: -", i, j, c, fmt_req(&req));
+                    if stream == Stream::Wf {
+                        println!("case {} {} {} -> panic {}", i, j, fmt_req(&req), c);
+                    }
+                }
+            }
+        }
+    }
+    println!("gen-summary stream={} fonts={} shapes={} generic_failures={}", if stream == Stream::Mal { "mal" } else { "wf" }, n, shapes, bad);
+}
+
+fn dump(args: &[String]) {
+    let seed = arg_u64(args, "--seed", 1);
+    let i = arg_u64(args, "--font", 0);
+    let (spec, _) = gen_font(seed, stream_of(args), i);
+    println!("spec {:?}", spec);
+    println!("coq {}", spec.coq());
+    println!("b64 {}", b64_encode(&build(&spec)));
+}
+
+fn bytes(args: &[String]) {
+    let mut s = String::new();
+    std::io::stdin().read_to_string(&mut s).ok();
+    let data = b64_decode(&s);
+    let req = parse_req(arg_str(args, "--req").unwrap_or(""));
+    match shape_bytes(&data, &req) {
+        Ok(out) => match generic_violation(&req, &out) {
+            Some(why) => println!("ok {} generic-fail {}", fmt_out(&out), why),
+            None => println!("ok {}", fmt_out(&out)),
+        },
+        Err(c) => println!("panic {}", c),
+    }
+}
+
+// ---------------------------------------------------------------------------------------------
+// oracles on restricted fonts (independent of the Gallina interpreter)
+
+fn chain1(kind: MorxKind, coverage: u32) -> Vec<MorxChain> {
+    vec![MorxChain { default_flags: 1, features: vec![], subtables: vec![MorxSubtable { coverage, sub_feature_flags: 1, kind }] }]
+}
+
+fn morx_font(ng: u16, chains: Vec<MorxChain>) -> FontSpec {
+    let mut s = FontSpec::basic(ng);
+    s.morx = Some(Morx { version: 2, chains });
+    s
+}
+
+fn req_of(gids: &[u16], dir: Direction, level: u8) -> Req {
+    Req { text: gids.iter().enumerate().map(|(i, g)| (pua(*g as u32 - 1), i as u32)).collect(), dir: Some(dir), level, ..Req::default() }
+}
+
+fn rand_text(r: &mut Rng, alphabet: &[u16], max: u64) -> Vec<u16> {
+    let n = r.below(max + 1);
+    (0..n).map(|_| *r.pick(alphabet)).collect()
+}
+
+/// Apple's verb table on the marked range (first .. last glyph), by pattern
+fn apple_verb(verb: u16, rng: &[u32]) -> Vec<u32> {
+    let n = rng.len();
+    let (la, ld) = match verb {
+        0 => (0, 0),
+        1 => (1, 0),
+        2 => (0, 1),
+        3 => (1, 1),
+        4 | 5 => (2, 0),
+        6 | 7 => (0, 2),
+        8 | 9 => (1, 2),
+        10 | 11 => (2, 1),
+        _ => (2, 2),
+    };
+    if n < la + ld {
+        return rng.to_vec();
+    }
+    let a = &rng[..la];
+    let x = &rng[la..n - ld];
+    let d = &rng[n - ld..];
+    let rev = |s: &[u32]| -> Vec<u32> { s.iter().rev().cloned().collect() };
+    let (d2, a2): (Vec<u32>, Vec<u32>) = match verb {
+        0 => (vec![], vec![]),
+        1 => (vec![], a.to_vec()),      // Ax => xA
+        2 => (d.to_vec(), vec![]),      // xD => Dx
+        3 => (d.to_vec(), a.to_vec()),  // AxD => DxA
+        4 => (vec![], a.to_vec()),      // ABx => xAB
+        5 => (vec![], rev(a)),          // ABx => xBA
+        6 => (d.to_vec(), vec![]),      // xCD => CDx
+        7 => (rev(d), vec![]),          // xCD => DCx
+        8 => (d.to_vec(), a.to_vec()),  // AxCD => CDxA
+        9 => (rev(d), a.to_vec()),      // AxCD => DCxA
+        10 => (d.to_vec(), a.to_vec()), // ABxD => DxAB
+        11 => (d.to_vec(), rev(a)),     // ABxD => DxBA
+        12 => (d.to_vec(), a.to_vec()), // ABxCD => CDxAB
+        13 => (d.to_vec(), rev(a)),     // ABxCD => CDxBA
+        14 => (rev(d), a.to_vec()),     // ABxCD => DCxAB
+        _ => (rev(d), rev(a)),          // ABxCD => DCxBA
+    };
+    let mut out = d2;
+    out.extend_from_slice(x);
+    out.extend(a2);
+    out
+}
+
+struct Tally {
+    name: &'static str,
+    runs: u64,
+    changed: u64,
+    fails: u64,
+}
+
+fn report(t: &mut Tally, spec: &FontSpec, req: &Req, want: &[u32], want_clusters: Option<&[u32]>) {
+    let bytes = build(spec);
+    t.runs += 1;
+    let plain: Vec<u32> = req.text.iter().map(|(c, _)| c - 0xE000 + 1).collect();
+    match shape_bytes(&bytes, req) {
+        Ok(out) => {
+            let mut got: Vec<u32> = out.iter().map(|g| g.gid).collect();
+            let mut gotc: Vec<u32> = out.iter().map(|g| g.cluster).collect();
+            if req.dir == Some(Direction::RightToLeft) {
+                got.reverse();
+                gotc.reverse();
+            }
+            if got != plain {
+                t.changed += 1;
+            }
+            let cl_ok = want_clusters.map(|w| w == &gotc[..]).unwrap_or(true);
+            if got != want || !cl_ok {
+                t.fails += 1;
+                println!(
+                    "oracle-fail {} want={:?} wantcl={:?} got={:?} gotcl={:?} :: {} :: {} :: {:?}",
+                    t.name, want, want_clusters, got, gotc, fmt_req(req), b64_encode(&bytes), spec.morx
+                );
+            }
+        }
+        Err(c) => {
+            t.fails += 1;
+            println!("oracle-fail {} panic:{} :: {} :: {} :: {:?}", t.name, c, fmt_req(req), b64_encode(&bytes), spec.morx);
+        }
+    }
+}
+
+fn oracle(args: &[String]) {
+    let seed = arg_u64(args, "--seed", 1);
+    let n = arg_u64(args, "--n", 50);
+    let mut r = Rng::new(seed ^ 0xC17);
+    let dirs = [Direction::LeftToRight, Direction::RightToLeft];
+
+    // (i) one non-contextual subtable => map through the lookup
+    let mut t1 = Tally { name: "noncontextual", runs: 0, changed: 0, fails: 0 };
+    for _ in 0..n {
+        let ng = r.range(6, 25) as u16;
+        let mut g = Gen { r: r.clone(), ng, mal: false };
+        let l = g.glyph_lookup();
+        r = g.r;
+        let cov = if r.chance(1, 3) { morx_coverage::BACKWARDS } else { 0 } | if r.chance(1, 3) { morx_coverage::LOGICAL } else { 0 };
+        let spec = morx_font(ng, chain1(MorxKind::NonContextual(l.clone()), cov));
+        let alphabet: Vec<u16> = (1..ng).collect();
+        for _ in 0..4 {
+            let text = rand_text(&mut r, &alphabet, 12);
+            let dir = *r.pick(&dirs);
+            let want: Vec<u32> = text
+                .iter()
+                .map(|g| lookup_value(&l, LookupRole::Glyph, ng, *g).unwrap_or(*g) as u32)
+                .filter(|g| *g != 0xFFFF)
+                .collect();
+            // clusters: identity minus the deleted ones only when nothing is deleted (deletion merges)
+            let nodel = want.len() == text.len();
+            let cl: Vec<u32> = (0..text.len() as u32).collect();
+            report(&mut t1, &spec, &req_of(&text, dir, r.below(3) as u8), &want, if nodel { Some(&cl) } else { None });
+        }
+    }
+
+    // (ii) rearrangement: F marks first, L marks last and runs the verb; everything between stays
+    let mut t2 = Tally { name: "rearrangement", runs: 0, changed: 0, fails: 0 };
+    for k in 0..n {
+        let verb = (k % 16) as u16;
+        let ng = 12u16;
+        let (f, l) = (1u16, 2u16);
+        let format = *r.pick(&[0u8, 2, 6, 8]);
+        // classes: 4 = F, 5 = L; state 2 = "first seen"
+        let table = StateTable {
+            n_classes: 6,
+            class_lookup: AatLookup::new(format, vec![(f, 4), (l, 5)]),
+            states: vec![vec![0, 0, 0, 0, 1, 0], vec![0, 0, 0, 0, 1, 0], vec![3, 3, 3, 3, 3, 2]],
+            entries: vec![
+                RearrEntry { new_state: 0, flags: 0 },
+                RearrEntry { new_state: 2, flags: 0x8000 },
+                RearrEntry { new_state: 0, flags: 0x2000 | verb },
+                RearrEntry { new_state: 2, flags: 0 },
+            ],
+        };
+        let spec = morx_font(ng, chain1(MorxKind::Rearrangement(table), 0));
+        let others: Vec<u16> = (3..ng).collect();
+        for _ in 0..4 {
+            // prefix (no F) , F, middle (no F, no L), L, suffix (no F)
+            let pre = rand_text(&mut r, &others, 3);
+            let mid_max = if r.chance(1, 10) { 70 } else { 6 };
+            let mid = rand_text(&mut r, &others, mid_max);
+            let suf = rand_text(&mut r, &others, 3);
+            let mut text = pre.clone();
+            text.push(f);
+            text.extend(&mid);
+            text.push(l);
+            text.extend(&suf);
+            let range: Vec<u32> = text[pre.len()..pre.len() + mid.len() + 2].iter().map(|g| *g as u32).collect();
+            let mut want: Vec<u32> = pre.iter().map(|g| *g as u32).collect();
+            if range.len() <= 64 {
+                want.extend(apple_verb(verb, &range));
+            } else {
+                want.extend(&range); // HB_MAX_CONTEXT_LENGTH: longer ranges are left alone
+            }
+            want.extend(suf.iter().map(|g| *g as u32));
+            report(&mut t2, &spec, &req_of(&text, Direction::LeftToRight, r.below(3) as u8), &want, None);
+        }
+    }
+
+    // (iii) ligature: a b => L, b deleted
+    let mut t3 = Tally { name: "ligature", runs: 0, changed: 0, fails: 0 };
+    for _ in 0..n {
+        let ng = 12u16;
+        let (a, b, lig) = (3u16, 5u16, 9u16);
+        let format = *r.pick(&[0u8, 2, 6, 8]);
+        let neg = r.chance(1, 2);
+        // component index = glyph + offset: b -> components[0] = 0 ... a -> components[1] = 1; ligatures[1] = lig
+        let (off_b, off_a) = if neg { (-(b as i32), 1 - a as i32) } else { (0, 4) };
+        let mut components = vec![0u16; 16];
+        if neg {
+            components[0] = 0;
+            components[1] = 1;
+        } else {
+            components[b as usize] = 0;
+            components[a as usize + 4] = 1;
+        }
+        let table = StateTable {
+            n_classes: 6,
+            class_lookup: AatLookup::new(format, vec![(a, 4), (b, 5)]),
+            states: vec![vec![0, 0, 0, 0, 1, 0], vec![0, 0, 0, 0, 1, 0], vec![0, 0, 0, 0, 1, 2]],
+            entries: vec![
+                LigEntry { new_state: 0, flags: 0, lig_action_index: 0 },
+                LigEntry { new_state: 2, flags: 0x8000, lig_action_index: 0 },
+                LigEntry { new_state: 0, flags: 0x8000 | 0x2000, lig_action_index: 1 },
+            ],
+        };
+        let kind = MorxKind::Ligature {
+            table,
+            lig_actions: vec![0, lig_action(off_b, false, false), lig_action(off_a, true, true)],
+            components,
+            ligatures: vec![7, lig, 8],
+        };
+        let spec = morx_font(ng, chain1(kind, 0));
+        for _ in 0..4 {
+            let text = rand_text(&mut r, &[a, b, 4, a, b], 10);
+            let level = r.below(3) as u8;
+            let mut want = Vec::new();
+            let mut wantc = Vec::new();
+            let mut i = 0;
+            while i < text.len() {
+                if text[i] == a && i + 1 < text.len() && text[i + 1] == b {
+                    want.push(lig as u32);
+                    wantc.push(i as u32);
+                    i += 2;
+                } else {
+                    want.push(text[i] as u32);
+                    wantc.push(i as u32);
+                    i += 1;
+                }
+            }
+            // levels 0/1: the ligature carries the smaller cluster; level 2 keeps the cluster of the
+            // glyph it replaced (the first component), which is the same number here
+            report(&mut t3, &spec, &req_of(&text, Direction::LeftToRight, level), &want, Some(&wantc));
+        }
+    }
+
+    // (iv) insertion of k glyphs before / after the current glyph, and at a marked glyph
+    let mut t4 = Tally { name: "insertion", runs: 0, changed: 0, fails: 0 };
+    for _ in 0..n {
+        let ng = 14u16;
+        let (m, t) = (2u16, 4u16);
+        let k = r.range(1, 4) as u16;
+        let before = r.chance(1, 2);
+        let marked = r.chance(1, 2);
+        let list: Vec<u16> = (0..8).map(|_| 6 + r.below(8) as u16).collect();
+        let start = r.below(8 - k as u64 + 1) as u16;
+        let ins: Vec<u32> = list[start as usize..(start + k) as usize].iter().map(|g| *g as u32).collect();
+        let format = *r.pick(&[0u8, 2, 6, 8]);
+        let table = if marked {
+            // m sets the mark (state 2); t inserts at the marked glyph and goes back to state 0
+            StateTable {
+                n_classes: 6,
+                class_lookup: AatLookup::new(format, vec![(m, 4), (t, 5)]),
+                states: vec![vec![0, 0, 0, 0, 1, 0], vec![0, 0, 0, 0, 1, 0], vec![3, 3, 3, 3, 1, 2]],
+                entries: vec![
+                    InsEntry { new_state: 0, flags: 0, current_insert_index: 0xFFFF, marked_insert_index: 0xFFFF },
+                    InsEntry { new_state: 2, flags: 0x8000, current_insert_index: 0xFFFF, marked_insert_index: 0xFFFF },
+                    InsEntry { new_state: 0, flags: if before { 0x0400 } else { 0 } | k, current_insert_index: 0xFFFF, marked_insert_index: start },
+                    InsEntry { new_state: 2, flags: 0, current_insert_index: 0xFFFF, marked_insert_index: 0xFFFF },
+                ],
+            }
+        } else {
+            StateTable {
+                n_classes: 6,
+                class_lookup: AatLookup::new(format, vec![(m, 4), (t, 5)]),
+                states: vec![vec![0, 0, 0, 0, 0, 1], vec![0, 0, 0, 0, 0, 1]],
+                entries: vec![
+                    InsEntry { new_state: 0, flags: 0, current_insert_index: 0xFFFF, marked_insert_index: 0xFFFF },
+                    InsEntry { new_state: 0, flags: if before { 0x0800 } else { 0 } | (k << 5), current_insert_index: start, marked_insert_index: 0xFFFF },
+                ],
+            }
+        };
+        let spec = morx_font(ng, chain1(MorxKind::Insertion { table, glyphs: list.clone() }, 0));
+        for _ in 0..4 {
+            let text = rand_text(&mut r, &[m, t, 3, 5, t], 9);
+            let mut want: Vec<u32> = Vec::new();
+            let mut wantc: Vec<u32> = Vec::new();
+            if marked {
+                // simulate by pattern: the nearest m before a t (no t in between) receives the insertion
+                let mut slots: Vec<(Vec<u32>, u32, Vec<u32>)> = text.iter().map(|g| (vec![], *g as u32, vec![])).collect();
+                let mut mark: Option<usize> = None;
+                for (i, g) in text.iter().enumerate() {
+                    if *g == m {
+                        mark = Some(i);
+                    } else if *g == t {
+                        if let Some(mi) = mark.take() {
+                            // inserted glyphs at the marked glyph; a second insertion cannot happen (state 0)
+                            if before {
+                                slots[mi].0 = ins.clone();
+                            } else {
+                                slots[mi].2 = ins.clone();
+                            }
+                        }
+                    }
+                }
+                for (i, (b, g, a)) in slots.iter().enumerate() {
+                    for x in b {
+                        want.push(*x);
+                        wantc.push(i as u32);
+                    }
+                    want.push(*g);
+                    wantc.push(i as u32);
+                    for x in a {
+                        want.push(*x);
+                        wantc.push(i as u32);
+                    }
+                }
+                // clusters of a marked insertion get merged over mark..current by the flag logic only at
+                // level 0/1 through unsafe_to_break (flags), not the cluster values: compare ids and, for
+                // glyphs inserted at the mark, the cluster of the marked glyph
+            } else {
+                for (i, g) in text.iter().enumerate() {
+                    if *g == t && before {
+                        for x in &ins {
+                            want.push(*x);
+                            wantc.push(i as u32);
+                        }
+                    }
+                    want.push(*g as u32);
+                    wantc.push(i as u32);
+                    if *g == t && !before {
+                        for x in &ins {
+                            want.push(*x);
+                            wantc.push(i as u32);
+                        }
+                    }
+                }
+            }
+            report(&mut t4, &spec, &req_of(&text, Direction::LeftToRight, r.below(3) as u8), &want, Some(&wantc));
+        }
+    }
+
+    for t in [&t1, &t2, &t3, &t4] {
+        println!("oracle-summary {} runs={} changed={} fails={}", t.name, t.runs, t.changed, t.fails);
+    }
+}
+
+// ---------------------------------------------------------------------------------------------
+// corpus
+
+fn morx_corpus() -> Vec<String> {
+    corpus_fonts(&repo_root())
+        .into_iter()
+        .filter(|p| {
+            std::fs::read(p)
+                .ok()
+                .map(|d| catch(move || rustybuzz::Face::from_slice(&d, 0).map(|f| f.tables().morx.is_some()).unwrap_or(false)).unwrap_or(false))
+                .unwrap_or(false)
+        })
+        .collect()
+}
+
+fn corpus(args: &[String]) {
+    let seed = arg_u64(args, "--seed", 1);
+    let per = arg_u64(args, "--per-font", 50);
+    let fonts = morx_corpus();
+    let mut r = Rng::new(seed ^ 0x17C0);
+    let mut shapes = 0u64;
+    let mut changed = 0u64;
+    let mut bad = 0u64;
+    for path in &fonts {
+        let Ok(data) = std::fs::read(path) else { continue };
+        let Some(face) = rustybuzz::Face::from_slice(&data, 0) else { continue };
+        let mut chars = cmap_chars(&face, 200);
+        chars.retain(|c| *c != 0);
+        let ascii: Vec<u32> = (0x20u32..0x7F).collect();
+        for _ in 0..per {
+            let n = r.below(9) as usize + r.below(2) as usize * r.below(40) as usize;
+            let pool = if chars.is_empty() || r.chance(1, 3) { &ascii } else { &chars };
+            let text: Vec<(u32, u32)> = (0..n).map(|i| (*r.pick(pool), i as u32)).collect();
+            let dir = match r.below(6) {
+                0 => Some(Direction::RightToLeft),
+                1 => Some(Direction::TopToBottom),
+                2 => None,
+                _ => Some(Direction::LeftToRight),
+            };
+            let req = Req { text, dir, level: r.below(3) as u8, ..Req::default() };
+            shapes += 1;
+            match shape_bytes(&data, &req) {
+                Ok(out) => {
+                    let plain: Vec<u32> = req.text.iter().map(|(c, _)| char::from_u32(*c).and_then(|ch| face.glyph_index(ch)).map(|g| g.0 as u32).unwrap_or(0)).collect();
+                    let mut got: Vec<u32> = out.iter().map(|g| g.gid).collect();
+                    if dir == Some(Direction::RightToLeft) {
+                        got.reverse();
+                    }
+                    if got != plain {
+                        changed += 1;
+                    }
+                    if let Some(why) = generic_violation(&req, &out) {
+                        bad += 1;
+                        println!("corpus-fail {} :: {} :: {}", path, fmt_req(&req), why);
+                    }
+                }
+                Err(c) => {
+                    bad += 1;
+                    println!("corpus-fail {} :: {} :: panic:{}", path, fmt_req(&req), c);
+                }
+            }
+        }
+    }
+    println!("corpus-summary fonts={} shapes={} changed={} failures={}", fonts.len(), shapes, changed, bad);
+}
+
+/// stdin: `<font path>\t<request>` per line; prints `case-ok` / `case-fail` per line
+fn cases() {
+    let mut s = String::new();
+    std::io::stdin().read_to_string(&mut s).ok();
+    for line in s.lines() {
+        let Some((path, reqs)) = line.split_once('\t') else { continue };
+        let full = if path.starts_with('/') { path.to_string() } else { format!("{}/{}", repo_root(), path) };
+        let Ok(data) = std::fs::read(&full) else {
+            println!("case-fail {} :: {} :: unreadable", path, reqs);
+            continue;
+        };
+        let req = parse_req(reqs);
+        match shape_bytes(&data, &req) {
+            Ok(out) => match generic_violation(&req, &out) {
+                None => println!("case-ok {} :: {} :: {}", path, reqs, fmt_out(&out)),
+                Some(why) => println!("case-fail {} :: {} :: {}", path, reqs, why),
+            },
+            Err(c) => println!("case-fail {} :: {} :: panic:{}", path, reqs, c),
+        }
+    }
 }
